@@ -115,6 +115,9 @@ def tuple_agg(body, op):
             agg = body.blocks[o[1]]["stmts"][o[2]]["rv"]["agg"]
             if agg["kind"] == "tuple":
                 return agg
+            # a private record in place of the tuple (a struct of the crate: one variant, named after the type)
+            if agg["kind"] == "adt" and lib.is_crate_adt(agg.get("adt", "")) and agg.get("vname") == agg.get("adt", "").split("::")[-1]:
+                return agg
     return None
 
 
@@ -554,7 +557,20 @@ def check(ctx):
         return
     ctx.touch(it)
     ctx.touch(cnt)
-    cls = prog.closures_of(it)
+    cls = list(prog.closures_of(it))
+    # the filter may live in a private iterator type that `iter_rtype` builds from (the list's iterator, the given reaction
+    # type): its `Iterator::next` (and that function's closures) is then where the comparison is
+    for bb_, i_, st_ in it.iter_stmts():
+        ag_ = st_.get("rv", {}).get("agg") if st_["k"] == "assign" else None
+        if not ag_ or ag_.get("kind") != "adt" or ag_.get("adt") not in prog.adts:
+            continue
+        if not any(any(o[0] == "arg" and o[1] == 2 for o in origins(it, op_)) for op_ in ag_["ops"]):
+            continue
+        for nb_ in prog.bodies:
+            if nb_.raw.get("name") == "next" and (nb_.raw.get("impl_trait") or "").endswith("iterator::Iterator") \
+                    and re.sub(r"<.*$", "", nb_.raw.get("impl_self") or "") == ag_["adt"]:
+                ctx.touch(nb_)
+                cls.extend(prog.closures_of(nb_))
     cmp_ok = False
     for c in cls:
         ctx.touch(c)
